@@ -179,18 +179,17 @@ func isErrNoController(err error) bool {
 // the admin client configuration
 func (ca *clusterAdmin) retryOnError(retryable func(error) bool, fn func() error) error {
 	var err error
-	for attempt := 0; attempt < ca.conf.Admin.Retry.Max; attempt++ {
+	for attempt := 0; ; attempt++ {
 		err = fn()
-		if err == nil || !retryable(err) {
+		if err == nil || !retryable(err) || attempt+1 >= ca.conf.Admin.Retry.Max {
+			// always at least one attempt, also with Admin.Retry.Max == 0
 			return err
 		}
 		Logger.Printf(
 			"admin/request retrying after %dms... (%d attempts remaining)\n",
 			ca.conf.Admin.Retry.Backoff/time.Millisecond, ca.conf.Admin.Retry.Max-attempt)
 		time.Sleep(ca.conf.Admin.Retry.Backoff)
-		continue
 	}
-	return err
 }
 
 func (ca *clusterAdmin) CreateTopic(topic string, detail *TopicDetail, validateOnly bool) error {
